@@ -61,4 +61,25 @@ def clientHeader (d : Int) : Bytes := intToDec (clientMillis d) ++ clientSuffix
 /-- `headersFromContext`: no deadline ⇒ no header -/
 def clientHeaderOpt (deadline : Option Int) : Option Bytes := deadline.map clientHeader
 
+/-- `context.WithTimeout(ctx, d)` called at time `now` on a context whose deadline is `parent`
+    (`none`: unbounded): the context package keeps the earlier of the two (external, assumed). -/
+def withTimeout (parent : Option Int) (now d : Int) : Int :=
+  match parent with
+  | none => now + d
+  | some p => min p (now + d)
+
+/-- whether the regenerated shape of the call site is the one modelled: the `WithTimeout` call is guarded
+    by the unit test alone and extends the context derived from the request's -/
+def applySiteAsModelled : Bool :=
+  Gen.timeoutApplyCond == "unit != 0" && Gen.timeoutCtxArg == "ctx" &&
+    Gen.timeoutCtxFrom == "metadata.NewIncomingContext(parent, md)"
+
+/-- deadline of the handler's context: `contextFromHeaders(parent, h)` run at time `now` with header
+    value `s`, the request context's own deadline being `parent` (e.g. set by middleware).
+    Any other shape of the call site is not modelled (the header is then taken as not applied). -/
+def handlerDeadline (parent : Option Int) (now : Int) (s : Bytes) : Option Int :=
+  match parseTimeout s with
+  | .deadline d => if applySiteAsModelled then some (withTimeout parent now d) else parent
+  | _ => parent
+
 end Timeout
